@@ -158,8 +158,8 @@ def body(m, cfg):
         rad = 0.75
     else:
         dx = dy = None
-    P = [[m.t(t) for t in m.vals(c._array)] for c in pos._xyz.values()]
-    W = [[m.t(t) for t in m.vals(c._array)] for c in vel._xyz.values()]
+    P = [[m.t(t) for t in m.vals(c._array)] for c in C.vcomps(pos).values()]
+    W = [[m.t(t) for t in m.vals(c._array)] for c in C.vcomps(vel).values()]
     M = [m.t(t) for t in m.vals(mass._array)]
     import io
     import contextlib
@@ -216,8 +216,8 @@ def body(m, cfg):
                         Vm.VectorBasis = VB2
                 rec.clear()
                 rolled.clear()
-                now = [[m.t(t) for t in m.vals(c._array)] for c in pos._xyz.values()] + \
-                      [[m.t(t) for t in m.vals(c._array)] for c in vel._xyz.values()] + [[m.t(t) for t in m.vals(mass._array)]]
+                now = [[m.t(t) for t in m.vals(c._array)] for c in C.vcomps(pos).values()] + \
+                      [[m.t(t) for t in m.vals(c._array)] for c in C.vcomps(vel).values()] + [[m.t(t) for t in m.vals(mass._array)]]
                 same = all(data.get(k_) is v_ for k_, v_ in members.items()) and len(data) == len(members)
                 m.require(same, "get_direction leaves the members of the data it is given in place", key=f"inputs-modified:{tag}")
                 pairs = [(a_, b_) for x_, y_ in zip(now, P + W + [M]) for a_, b_ in zip(x_, y_)]
